@@ -19,7 +19,7 @@ epoll_create epoll_create1 epoll_ctl
 read readv write writev pread sendto recvfrom sendfile recv send
 socket socketpair bind listen accept accept4 connect shutdown close dup dup2
 fcntl ioctl getsockopt setsockopt getsockname getpeername
-pipe pipe2 eventfd signalfd open getpid evutil_weakrand_seed_""".split()
+pipe pipe2 eventfd signalfd open getpid evutil_weakrand_seed_ arc4random arc4random_buf""".split()
 
 # undefined symbols libevent may reference that are pure / harmless; anything else is reported
 PURE = set("""__ctype_b_loc __errno_location __isoc99_sscanf abort calloc exit fprintf fputc free fwrite malloc
@@ -27,7 +27,7 @@ memchr memcmp memcpy memmove memset realloc snprintf stderr strcasecmp strchr st
 strncmp strpbrk strrchr strsep strsignal strspn strtod strtok_r strtol strtoll strtoul sysconf vsnprintf gmtime_r
 getauxval sigaddset sigemptyset sigfillset sigaction sigprocmask gai_strerror getaddrinfo freeaddrinfo getnameinfo
 getenv gethostname getifaddrs freeifaddrs if_nametoindex getprotobynumber getservbyname mmap64 munmap fstat
-arc4random arc4random_buf eventfd_read eventfd_write strncpy memrchr qsort bsearch isatty puts printf putchar
+eventfd_read eventfd_write strncpy memrchr qsort bsearch isatty puts printf putchar
 __assert_fail __stack_chk_fail strcat strncat toupper tolower atoi strtoull vfprintf fflush sprintf
 __ctype_tolower_loc __ctype_toupper_loc strstr strnlen strcspn lseek fopen fclose fread fgets ftell fseek stat
 __isoc99_fscanf timegm mktime strftime localtime_r perror __fdelt_chk stdout""".split())
